@@ -203,6 +203,25 @@ fn main() {
             },
             g5.describe(),
         ));
+        // instruction kinds: read / write / read-modify-write / two accesses / implicit stack accesses / none, with
+        // the registers at 0 (null base) or at a mapped address
+        let g7 = gen_access_kinds(ctx.tier);
+        let g8 = g7.clone();
+        def.spaces.push(Space::new(
+            "access-kinds",
+            g7.len,
+            move |idx, l| {
+                let m = (g8.model)(idx);
+                l.eval();
+                match process_model(&m) {
+                    Proc::Ok(st) => check_flips(&m, &st, l),
+                    Proc::ProcessErr(e) => l.violation("c19:process:error", format!("processing a well-formed generated dump failed: {e}"), json!({"model": m.summary()})),
+                    Proc::ReadErr(e) => panic!("c19 generator produced an unreadable dump: {e} ({m:?})"),
+                    Proc::Panic(p) => l.panic_violation(&p, json!({"model": m.summary()})),
+                }
+            },
+            g7.describe(),
+        ));
         def
     })
 }
